@@ -94,8 +94,7 @@ def check(prop, tier):
     canary["id"] = 999999999
     canary["steps"][-1]["out"]["c"] ^= 1
     verdicts, st = accept.accept("Trace_Crc7", CFG_TRACE, traces + [canary], chunk=6000, jobs=8, env=env)
-    if accept.final_verdict(verdicts[canary["id"]])["v"] != "MISMATCH":
-        raise MachineryError("crc canary was not rejected")
+    canary_bad = accept.final_verdict(verdicts[canary["id"]])["v"] != "MISMATCH"
     keys = set()
     nev = 0
     bad = 0
@@ -112,6 +111,8 @@ def check(prop, tier):
                                "key": {"module": "Crc7", "clause": "csum"}})
         elif len(t["steps"]) >= 2:
             keys.add(trace_key(t))
+    if canary_bad and not out.violations:
+        raise MachineryError("crc canary was not rejected")
     out.cov["traces_validated_against_impl"] = len(traces)
     out.cov["evaluations"] = nev
     out.cov["distinct_nontrivial"] = len(keys)
